@@ -461,3 +461,20 @@ package meta
 //@ func (*DB).exists
 //@   property C01
 //@   ensures [present_only_if_container_live_and_status_available] res0 ==> !viewContainerRemoved() && viewStatus() == statusAvailable
+
+// ---- C01 (status inheritance of split children): the parent of a header-less child is found
+// by walking the siblings that share its first-object / split ID. The walk is driven by the
+// caller's cursor; looking a sibling's parent up repositions the cursor it is given, so the
+// loop body must use a cursor of its own - with the driving cursor only the first sibling
+// would ever be consulted.
+//@ ghost pred cursorOfItsOwn(c *bbolt.Cursor) bool
+//@ callrule c01_sibling_walk_makes_its_own_cursor in seekForParentViaAttribute
+//@   property C01
+//@   callee (*bbolt.Bucket).Cursor
+//@   pureeffect
+//@   defines cursorOfItsOwn(result)
+//@ callrule c01_sibling_lookup_does_not_move_the_walk in seekForParentViaAttribute
+//@   property C01
+//@   callee metabase.getParentID
+//@   pureeffect
+//@   requires [lookup_uses_a_cursor_of_its_own] cursorOfItsOwn(a0)
